@@ -87,6 +87,18 @@ def run(ctx):
                         return lasio.read(pathlib.Path(path) if as_path else path, **kw)
                     return mk, None
                 nread += sweep("read", "%s/%s/%s/%s" % (name, codec, sorted(kw), "Path" if as_path else "str"), factory)
+    if thorough:
+        # the example corpus: a fault at every low-level operation of reading each (smaller) file by path
+        import glob
+        files = sorted(glob.glob(os.path.join(core.REPO, "tests", "examples", "*.las")))
+        for fn in files[::3]:
+            if os.path.getsize(fn) > 20000:
+                continue
+            def factory(fn=fn):
+                def mk():
+                    return lasio.read(fn)
+                return mk, None
+            nread += sweep("read", "corpus:" + os.path.basename(fn), factory)
     # ---- write(path), write(file), to_csv(path), to_csv(file)
     def las_objects():
         yield "good", lambda: lasio.read(GOOD)
